@@ -130,7 +130,7 @@ def run(ctx):
             ctx.broken.append(('harness', r['error'][-1500:]))
         elif r['executions'] != r['reported'] or r['count_after'] != 0:
             diff = {k: [r['executions'].get(k, 0), r['reported'].get(k, 0)] for k in set(r['executions']) | set(r['reported']) if r['executions'].get(k, 0) != r['reported'].get(k, 0)}
-            ctx.fail('decorated callables used in a worker thread (while the starting thread is inside a decorated callable) are not profiled exactly',
+            ctx.fail('decorated callables used concurrently (a worker thread started from inside a decorated callable; overlapping asyncio tasks) are not profiled exactly',
                      {'finding_class': None, 'thread_case': c, '[executions, reported hits] where they differ': diff, 'enable_count_after': r['count_after']})
     ctx.coverage['thread_cases'] = len(thr)
     ctx.coverage.update({
